@@ -487,6 +487,43 @@ func c14Build(c c14StructCase) c14Case {
 		out.Text = hdr("m") + "include s1; }"
 		out.Files["s1.yang"] = "submodule s1 { belongs-to m { prefix m; } include s2; leaf a { type string; } }"
 		out.Files["s2.yang"] = "submodule s2 { belongs-to m { prefix m; } include s1; leaf b { type string; } }"
+	case "include-cycle-nodata":
+		// include cycles among submodules that define no data nodes (nothing collides, so nothing stops the merge by chance)
+		switch c.V % 3 {
+		case 0:
+			out.Text = hdr("m") + "include s; }"
+			out.Files["s.yang"] = "submodule s { belongs-to m { prefix m; } include s; typedef t { type string; } }"
+		case 1:
+			out.Text = hdr("m") + "include a; include b; }"
+			out.Files["a.yang"] = "submodule a { belongs-to m { prefix m; } include b; typedef ta { type string; } }"
+			out.Files["b.yang"] = "submodule b { belongs-to m { prefix m; } include a; typedef tb { type string; } }"
+		default:
+			out.Text = hdr("m") + "include a; }"
+			out.Files["a.yang"] = "submodule a { belongs-to m { prefix m; } include b; }"
+			out.Files["b.yang"] = "submodule b { belongs-to m { prefix m; } include c; }"
+			out.Files["c.yang"] = "submodule c { belongs-to m { prefix m; } include a; grouping g { leaf x { type string; } } }"
+		}
+	case "import-misnamed-cycle":
+		// the file served for module x holds a module of another name that imports x again
+		out.Text = hdr("m") + "import x { prefix x; } }"
+		out.Files["x.yang"] = hdr("y") + "import x { prefix q; } }"
+		if c.V%2 == 1 {
+			out.Files["x.yang"] = hdr("y") + "import z { prefix q; } }"
+			out.Files["z.yang"] = hdr("w") + "import x { prefix q; } }"
+		}
+	case "disabled-uses-cycle":
+		// a uses that its if-feature leaves out, of a grouping that uses itself (directly, through another, in an import)
+		switch c.V % 4 {
+		case 0:
+			out.Text = hdr("m") + "feature f; grouping g { uses g; } container c { uses g { if-feature \"not f\"; } leaf x { type string; } } }"
+		case 1:
+			out.Text = hdr("m") + "feature f; grouping g { uses h; } grouping h { uses g; } container c { uses g { if-feature \"not f\"; } leaf x { type string; } } }"
+		case 2:
+			out.Text = hdr("m") + "feature f; import dep { prefix d; } container c { uses d:g { if-feature \"not f\"; } leaf x { type string; } } }"
+			out.Files["dep.yang"] = hdr("dep") + "grouping g { uses h; } grouping h { uses g; } }"
+		default:
+			out.Text = hdr("m") + "feature f; grouping g { leaf y { type string; } uses g { if-feature \"not f\"; } } container c { uses g; } }"
+		}
 	case "include-module":
 		out.Text = hdr("m") + "include other; }"
 		out.Files["other.yang"] = hdr("other") + "leaf y { type string; } }"
@@ -604,7 +641,7 @@ func c14Build(c c14StructCase) c14Case {
 	return out
 }
 
-var c14Shapes = []string{"nest-container", "nest-list", "nest-choice", "nest-grouping", "nest-open", "nest-close", "nest-union", "nest-ext", "ext-args", "ext-args-str", "concat", "concat-dangling",
+var c14Shapes = []string{"include-cycle-nodata", "import-misnamed-cycle", "disabled-uses-cycle", "nest-container", "nest-list", "nest-choice", "nest-grouping", "nest-open", "nest-close", "nest-union", "nest-ext", "ext-args", "ext-args-str", "concat", "concat-dangling",
 	"many-siblings", "dup-siblings", "dup-statements", "dup-header", "unterminated-dquote", "unterminated-squote", "unterminated-comment", "line-comment-eof", "line-comment-only", "backslash-eof",
 	"typedef-cycle", "grouping-cycle", "grouping-cycle-unused", "identity-cycle", "leafref-cycle", "union-self", "import-self", "import-mutual", "import-chain-cycle", "include-self", "include-mutual",
 	"include-module", "import-submodule", "import-garbage", "import-missing", "include-missing", "import-readerr", "include-readerr", "serve-same", "leafref-to-container", "leafref-to-list",
